@@ -3,6 +3,7 @@
 package props
 
 import (
+	"os"
 	"verif/mc/api"
 	"verif/mc/ct"
 	"verif/mc/drv"
@@ -31,6 +32,15 @@ type Check struct {
 	Confirm        func(raw []byte) bool // re-runs a Special finding; true if it reproduces
 	Rule           string                // how cases are enumerated / what counts as non-trivial
 	Assume         []string
+}
+
+// Root is the directory of the verification machinery (default /verif; VERIF_ROOT overrides it so
+// that a snapshot of the tree can run without touching the live one).
+func Root() string {
+	if r := os.Getenv("VERIF_ROOT"); r != "" {
+		return r
+	}
+	return "/verif"
 }
 
 // Shard / NShard are set in shard processes (see Check.SpecialSharded).
